@@ -149,8 +149,8 @@ class _Gen:
             ("assign", 5), ("aug", 2), ("expr", 2), ("pass", 0 if o["clean"] else 0.3),
             ("if", 0 if deep else 4), ("while", 0 if deep else 2 * o["loops"]),
             ("for", 0 if deep else 2.5 * o["loops"]),
-            ("break", 1.5 if inloop else 0), ("continue", 1 if inloop else 0),
-            ("return", 0.8),
+            ("break", 1.5 * o["jumpy"] if inloop else 0), ("continue", 1 * o["jumpy"] if inloop else 0),
+            ("return", 0.8 * (o["jumpy"] if inloop else 1)),
         ])
         if kind == "assign":
             self.emit(ind, "%s = %s" % (r.choice(LOCALS), self.expr()))
@@ -238,11 +238,71 @@ def _draw_opts(rng):
         "boolop_mode": rng.choice(["toplevel", "anywhere"]),
         "for_target_local": rng.chance(0.4),
         "clean": False,
+        "jumpy": rng.choice([1, 1, 2.5, 4]),
+        "family": "multiexit" if rng.chance(0.15) else "general",
     }
+
+
+def gen_multi_exit(rng, opts):
+    """Family "loops with many ways out": a loop whose body is a sequence of
+    guarded exits (break / continue / return, each optionally preceded by a
+    statement) so that three and more exits re-join behind the loop."""
+    g = _Gen(rng.fork("mx"), 6, opts)
+    r = g.rng
+    g.emit(0, "def f(E, I, O, a, b):")
+    g.emit(1, "x = 0")
+    g.emit(1, "y = 1")
+    g.emit(1, "z = a")
+    nloops = r.weighted([(1, 5), (2, 2)])
+    for _l in range(nloops):
+        ind = 1
+        if r.chance(0.3):
+            g.emit(1, "if %s:" % g.test())
+            ind = 2
+        if r.chance(0.7):
+            g.emit(ind, "while E(%d):" % g.sid())
+        else:
+            g.emit(ind, "for i in I(%d):" % g.sid())
+        g.loopdepth += 1
+        g.emit(ind + 1, "x += 1")
+        for _e in range(r.randint(2, 4)):
+            g.emit(ind + 1, "if E(%d):" % g.sid())
+            narm = r.weighted([(1, 5), (2, 3)])
+            for arm in range(narm):
+                if arm:
+                    g.emit(ind + 1, "elif E(%d):" % g.sid())
+                if r.chance(0.6):
+                    g.emit(ind + 2, r.choice(["E(%d)" % g.sid(), "y += 1", "z = E(%d)" % g.sid()]))
+                jump = r.weighted([("break", 4), ("continue", 2), ("return", 3), ("none", 2)])
+                if jump == "return":
+                    g.emit(ind + 2, "return (x, %s)" % r.choice(["y", "z", "100", "E(%d)" % g.sid()]))
+                elif jump == "none":
+                    g.emit(ind + 2, "y = %d" % r.randint(2, 9))
+                else:
+                    if g.lines[-1].strip().endswith(":"):
+                        g.emit(ind + 2, "E(%d)" % g.sid())
+                    g.emit(ind + 2, jump)
+            if r.chance(0.2):
+                g.emit(ind + 1, "else:")
+                g.emit(ind + 2, "z = E(%d)" % g.sid())
+        if r.chance(0.4):
+            g.emit(ind + 1, "return (x, y, %d)" % r.randint(100, 103))
+        else:
+            g.emit(ind + 1, "y += E(%d)" % g.sid())
+        g.loopdepth -= 1
+        if r.chance(0.25):
+            g.emit(ind, "else:")
+            g.emit(ind + 1, "z = E(%d)" % g.sid())
+        if r.chance(0.5):
+            g.emit(1, "y = E(%d)" % g.sid())
+    g.emit(1, "return (x, y, z)")
+    return "\n".join(g.lines) + "\n"
 
 
 def gen_program(rng, size=10, opts=None):
     opts = opts or draw_opts(rng.fork("opts"))
+    if opts.get("family") == "multiexit":
+        return gen_multi_exit(rng, opts)
     g = _Gen(rng.fork("body"), size, opts)
     g.emit(0, "def f(E, I, O, a, b):")
     if opts["init_locals"]:
